@@ -39,6 +39,12 @@ impl Op {
         }
         Some(op)
     }
+    /// hash without the task id (per-instance transcripts must not depend on how instances are numbered)
+    pub fn hash_nt(&self) -> u64 {
+        let mut o = self.clone();
+        o.t = 0;
+        o.hash()
+    }
     pub fn hash(&self) -> u64 {
         let mut h = fnv(&self.name) ^ (self.t as u64).wrapping_mul(0x9e37_79b9_7f4a_7c15);
         for (k, v) in &self.args {
@@ -149,6 +155,10 @@ pub trait Scenario: Sync {
     }
     /// digest of the event log (op, result) of the run so far
     fn log_digest(&self, w: &Self::World) -> u64;
+    /// per-task (per-instance) event-log digests; a task's digest depends only on its own operations and results
+    fn task_logs(&self, _w: &Self::World) -> Vec<u64> {
+        vec![]
+    }
     /// candidate smaller setups (with ops remapped) for minimisation
     fn shrink_setup(&self, _setup: &J, _ops: &[Op]) -> Vec<(J, Vec<Op>)> {
         vec![]
